@@ -43,14 +43,16 @@ REq(a, b) == WMul(a[1], b[2]) = WMul(b[1], a[2])
 
 (* exact results: a set of rationals (floor division and remainder admit two roundings) *)
 Results(op, a, b, n) ==
-    CASE op = "add" -> {RAdd(a, b)}
+    CASE op = "mov" -> {a}                         \* plain assignment: only the conversion to the destination
+      [] op = "add" -> {RAdd(a, b)}
       [] op = "sub" -> {RSub(a, b)}
       [] op = "mul" -> {RMul(a, b)}
       [] op = "truediv" -> {RDiv(a, b)}
       [] op = "floordiv" -> {<<q, OneW(n)>> : q \in Ints(RDiv(a, b))}
       [] op = "mod" -> {RSub(a, RMul(b, <<q, OneW(n)>>)) : q \in Ints(RDiv(a, b))}
 (* is the result of the operation fixed-point (as the DSL types it and the property describes it)? *)
-ResultFixed(op, l, r) == IF op = "truediv" THEN TRUE ELSE IF op = "floordiv" THEN FALSE ELSE IsFix(l) \/ IsFix(r)
+ResultFixed(op, l, r) == IF op = "truediv" THEN TRUE ELSE IF op = "floordiv" THEN FALSE
+                         ELSE IF op = "mov" THEN IsFix(l) ELSE IsFix(l) \/ IsFix(r)
 
 (* what the destination may hold *)
 Dropped(res, dstfixed, n) ==
@@ -61,12 +63,22 @@ ExpectedRaw(k) == {WTrunc(v, 8) : v \in Dropped(Results(k.op, RatOf(k, k.l), Rat
    scaled by 100000, by 100000^2 when it is divided by a fixed-point value), the exact results scaled by 100000,
    and products of raw values all fit a signed 64-bit word; divisors non-zero *)
 Fits64(v) == WFitsS(v, 8)
-Scales(k) == LET a == RawOf(k, k.l)  b == RawOf(k, k.r)  f == FB(k.n) IN
-    {a, b, WMul(a, f), WMul(b, f), WMul(WMul(a, f), f), WMul(a, b)}
+(* the operands, each scaled to the finest scale THIS operation needs (first version: one set for all operations,
+   including raw * 100000^2, which only int / fixed needs - it skipped every comparison and sum with a raw value
+   of 2^31 or more, and a seeded change in exactly that corner went unnoticed) *)
+Scales(k) == LET a == RawOf(k, k.l)  b == RawOf(k, k.r)  f == FB(k.n)
+                 li == ~IsFix(k.l)  ri == ~IsFix(k.r)
+                 sa == IF li /\ ~ri THEN WMul(a, f) ELSE a          \* an integer meeting fixed point
+                 sb == IF ri /\ ~li THEN WMul(b, f) ELSE b IN
+    {a, b} \cup
+    (CASE k.op = "mov" -> {IF li THEN WMul(a, f) ELSE a}
+       [] k.op = "mul" -> {WMul(a, b)}
+       [] k.op = "truediv" -> {IF li /\ ~ri THEN WMul(WMul(a, f), f) ELSE IF li = ri THEN WMul(a, f) ELSE a}
+       [] OTHER -> {sa, sb})
 PreOK(k) ==
     /\ (k.op \in {"truediv", "floordiv", "mod"} => ~RIsZero(RatOf(k, k.r)))
     /\ \A v \in Scales(k) : Fits64(v)
-    /\ (k.op \in {"add", "sub", "mul", "truediv", "floordiv", "mod"} =>
+    /\ (k.op \in {"mov", "add", "sub", "mul", "truediv", "floordiv", "mod"} =>
           \A x \in Results(k.op, RatOf(k, k.l), RatOf(k, k.r), k.n) :
               \A v \in Ints(<<WMul(x[1], FB(k.n)), x[2]>>) : Fits64(v))
 
